@@ -125,8 +125,13 @@ _FREE_EFFECT = {"erase_if": "erase", "remove_if": None, "remove": None, "stable_
                 "none_of": None, "distance": None, "move": None, "forward": None}
 
 
+_ALIAS = []          # stack of parameter-id sets standing for the list inside a helper that received it by reference
+
+
 def _is_params(e):
     e = X.strip(e)
+    if isinstance(e, dict) and e.get("k") == "ref" and e.get("kind") == "param" and _ALIAS and e.get("id") in _ALIAS[-1]:
+        return True
     return isinstance(e, dict) and e.get("k") == "member" and e.get("field") == "params" and \
         isinstance(e.get("base"), dict) and X.strip(e["base"]).get("k") == "this"
 
@@ -159,6 +164,18 @@ def _stmt_effects(fx, owner, st, depth, seen):
                     eff = _FREE_EFFECT.get(nm, None)               # std::stable_sort(params.begin(), params.end(), ..)
                     if eff:
                         out.append(eff)
+                continue
+            # a first-party free helper that is handed the list by reference: its effects on that parameter are effects on the list
+            if n.get("fp") and not n.get("method") and depth > 0 and not q.startswith("std::") and \
+                    any(_is_params(a) for a in n.get("args", [])) and n.get("callee"):
+                g = fx.by_key.get(n["callee"])
+                if g is not None and g.get("blocks") and g["key"] not in seen:
+                    ids = {p_["id"] for a, p_ in zip(n.get("args", []), g.get("params", [])) if _is_params(a)}
+                    _ALIAS.append(ids)
+                    try:
+                        out += ["via:" + g["name"] + ":" + e for e in _fn_effects(fx, g, depth - 1, seen | {g["key"]})["all"]]
+                    finally:
+                        _ALIAS.pop()
                 continue
             if q.startswith("ada::url_search_params::") and n.get("method") and not n.get("const_method") and depth > 0 \
                     and X.strip(n.get("recv") or {}).get("k") == "this":
@@ -261,12 +278,35 @@ def check_operation_effects(ctx, fx):
     ctx.floor("Q12", n, 8, "operation effect obligations")
 
 
+def _initialize_bodies(fx):
+    """url_search_params::initialize, its local lambdas, and the first-party helpers they call (a helper that was extracted from
+    the lambda still is the urlencoded parser); the decoders of ada::unicode are not part of it"""
+    out = [g for g in fx.functions if "url_search_params::initialize" in g["key"] and g.get("blocks")]
+    seen = {g["key"] for g in out}
+    frontier = list(out)
+    for _depth in range(2):
+        nxt = []
+        for g in frontier:
+            for nd, st, b in C.all_nodes(g):
+                if nd.get("k") == "call" and nd.get("fp") and nd.get("callee") and nd["callee"] not in seen:
+                    q = nd.get("qname") or ""
+                    if q.startswith("ada::unicode::") or q.startswith("ada::url_search_params::"):
+                        continue
+                    h = fx.by_key.get(nd["callee"])
+                    if h is not None and h.get("blocks") and C.first_party(h):
+                        seen.add(h["key"])
+                        out.append(h)
+                        nxt.append(h)
+        frontier = nxt
+    return out
+
+
 def check_split_arithmetic(ctx, fx):
     """Q13.  application/x-www-form-urlencoded parsing: sequences are what lies between two '&'; "if bytes contains a 0x3D (=),
     then let name be the bytes from the start of bytes up to but excluding its first 0x3D (=), and let value be the bytes, if
     any, after the first 0x3D (=)".  With L the position found by find('&') / find('='):  the piece before is substr(0, L),
     the rest starts at L + 1 (the delimiter is one byte) — any other offset built from L drops or duplicates a byte."""
-    fs = [g for g in fx.functions if "url_search_params::initialize" in g["key"]]
+    fs = _initialize_bodies(fx)
     n = 0
     for g in fs:
         pos = {}          # local id -> delimiter byte
@@ -795,9 +835,8 @@ def check(ctx, fx):
         ctx.check("Q3", "form set contains %r" % chr(ch), ch in got, "escaped by the serializer",
                   "%r is list syntax for the parser but the serializer would emit it verbatim" % chr(ch), where=t["loc"])
     init = fx.fn1("ada::url_search_params::initialize")
-    lams = [g2 for g2 in fx.functions if g2.get("lambda") and "url_search_params::initialize" in g2["key"]]
     dec = 0
-    for g2 in lams + [init]:
+    for g2 in _initialize_bodies(fx):
         for n, s, b in C.all_nodes(g2):
             if n.get("k") == "call" and n.get("qname") == "ada::unicode::form_urlencoded_decode":
                 dec += 1
